@@ -5,6 +5,7 @@ import json
 import multiprocessing as mp
 import os
 import random
+import shutil
 import subprocess
 import sys
 import time
@@ -119,6 +120,8 @@ class Report:
         for v in new:
             groups.setdefault(v.signature(), []).append(v)
         lines = []
+        shutil.rmtree(os.path.join(REPLAY_DIR, self.prop),
+                      ignore_errors=True)
         for sig, vs in groups.items():
             vs.sort(key=lambda v: len(json.dumps(v.get("case"),
                                                  default=_json_default)))
